@@ -11,4 +11,7 @@ SeqOps == {"Return", "Returns", "When", "Call", "Reset"}
 LogNames == {"OpenDebug", "CloseDebug", "OpenTrace", "CloseTrace"}
 LogOps == AllOps \cup LogNames
 RejectOps == StubOps \cup {"Mistake"}
+ImageHeldOps == ImageOps \cup {"Held", "Call"}
+HeldOps == AllOps \cup {"Held"}
+HeldStubOps == StubOps \cup {"Held"}
 ====
